@@ -623,15 +623,33 @@ def registry_rules(ctx, rule: str):
     known_resistance_rule(ctx, rule)
 
 
+# the cassette labels the library resolves at the pinned commit, read off moclo/registry/_utils.py and confirmed by hand: a
+# plasmid of a user's directory that carries one of them is a "typed GenBank plasmid" of the quantifier, and its lookup ends
+# in a RuntimeError (for a key the iteration yields) as soon as the label leaves the table.  New labels may be added freely.
+CONFIRMED_CASSETTE_LABELS = {
+    "KanR": "Kanamycin", "KnR": "Kanamycin", "CamR": "Chloramphenicol", "CmR": "Chloramphenicol",
+    "AmpR": "Ampicillin", "SmR": "Spectinomycin", "SpecR": "Spectinomycin",
+}
+
+
 def known_resistance_rule(ctx, rule: str):
     """find_resistance returns only values of the antibiotics table, looked up under a key known to be in it, or raises"""
     p = ctx.program
     r = ctx.report
     fr = p.get_func("moclo.registry._utils.find_resistance")
     mod = fr.module
-    from .roles import resistance_table
+    from .roles import resistance_table, resistance_table_value
 
-    bad = table_value_returns(p, fr, resistance_table(p))
+    tname = resistance_table(p)
+    table = resistance_table_value(p, tname)
+    if table is None:
+        raise AnalysisError("%s: the antibiotics table `%s` does not fold to a mapping of labels to antibiotics" % (fr.where(), tname))
+    for label, name in sorted(CONFIRMED_CASSETTE_LABELS.items()):
+        r.ob(rule + ".known-resistance.table", "%s[%r]" % (tname, label), table.get(label) == name,
+             "the cassette label %r must resolve to %r as it does at the pinned commit (the table gives %r): a directory plasmid "
+             "carrying it is listed by the registry but its lookup raises" % (label, name, table.get(label)), fr.where())
+    r.floor(rule + ".known-resistance.table", len(CONFIRMED_CASSETTE_LABELS))
+    bad = table_value_returns(p, fr, tname)
     if not _terminates(fr.node.body):
         bad.append("line %d: the function can fall off its end (returns None) instead of raising" % fr.node.body[-1].lineno)
     r.ob(rule + ".known-resistance", fr.qualname, not bad,
